@@ -10,6 +10,8 @@ Structural clauses decided:
  R5 reported quality is computed from the running minimum, through the score table of the signature's own protocol in
     every impl of DatabaseSignature
  R6 None is returned exactly when no candidate was accepted
+ shared: C12.R11 (list-valued components compared as whole lists - the distance function accepts nothing the exact-string key separates),
+ C13.R2 (request / response observations are looked up in their own collections)
 """
 from ..engine import cfg as C
 from ..engine import q as Q
